@@ -810,30 +810,33 @@ def tag_emit(F):
     if ps_hid is None:
         raise CheckError("encode_internal: parameter pull_side_effects not found")
 
-    def rec(node, g):
-        if isinstance(node, list):
-            for v in node:
-                rec(v, g)
-            return
-        if not isinstance(node, dict):
-            return
+    # established on the way to the call: an enclosing `if pull_side_effects` (possibly `&& ..`), or an earlier guard clause
+    # `if !pull_side_effects { continue / return }`
+    from vlib.facts import guard_conditions
+
+    def is_ps(e):
+        e = peel(e)
+        return e.get("k") == "Path" and e.get("res", {}).get("hid") == ps_hid
+
+    def holds(pol, c):
+        c = peel(c)
+        if pol is True:
+            if is_ps(c):
+                return True
+            if c.get("k") == "Binary" and c.get("op") == "&&":
+                return holds(True, c["a"]) or holds(True, c["b"])
+            return False
+        if c.get("k") == "Unary" and c.get("op") == "!":
+            return is_ps(c["a"])
+        if c.get("k") == "Binary" and c.get("op") == "||":
+            return holds(False, c["a"]) or holds(False, c["b"])
+        return False
+    for node in walk(fn["body"]):
         if node.get("k") == "Call" and (node.get("callee") or "").endswith("::add_injection"):
+            g = any(pol != "pat" and holds(pol, c) for pol, c in guard_conditions(fn["body"], node))
             r.ob(g, {"add_injection guarded by pull_side_effects": g})
             if not g:
                 r.violate("%s | unguarded add_injection" % fn["path"], F.loc(fn, node), "side-effect record is produced even when side effects were not requested")
-        if node.get("k") == "If":
-            c = peel(node["cond"])
-            is_ps = c.get("k") == "Path" and c.get("res", {}).get("hid") == ps_hid
-            rec(node["cond"], g)
-            rec(node["then"], g or is_ps)
-            if "else" in node:
-                rec(node["else"], g)
-            return
-        for v in node.values():
-            if isinstance(v, (dict, list)):
-                rec(v, g)
-
-    rec(fn["body"], False)
     # probe bodies collected after remap: add_opcode_injections call follows the instruction loop in the same block
     ok = False
     for blk in walk(fn["body"]):
@@ -1403,7 +1406,7 @@ def encode_writes(F):
     r.analysed += sorted(seen)[:30]
     r.count("encode_reachable_fns", len(seen))
     r.count("write_patterns", len(pats))
-    vanished = [k for k in rows if k not in pats]
+    vanished = [k for k in rows if k not in pats and not rows[k].get("optional")]   # optional rows: shapes the same write takes after a refactoring
     for key, (f, n) in sorted(pats.items()):
         ok = key in rows
         if not ok:
